@@ -39,6 +39,13 @@ LR_RTOL = 1e-6  # learning-rate history, relative
 ARR_RTOL = 2e-4  # object / probe, relative to max|reference|
 ARR_ATOL = 1e-6  # absolute floor (a potential object may be identically zero)
 ADAM_REL = 2e-3  # x (sum of learning rates since the first interruption), Adam/AdamW-driven models only
+# same, when a *fresh* Adam/AdamW takes its first step after the first interruption (k == 0, or a later call
+# passes optimizer_params, which re-creates every optimizer): that step is lr*sign(g) exactly, so every
+# component whose gradient lies below the float32 noise floor (or is analytically zero) moves by a full
+# +-lr with a sign decided by the summation order; for k >= 1 that step lies in the bitwise-shared prefix.
+# Measured: up to 1.7 % of the path on a well-illuminated pixel of a complex object starting at the |o| = 1
+# clamp boundary.
+ADAM_REL_FRESH = 5e-2
 SAME_RTOL = 1e-7  # "reports the same object/probe" right after load/clone, relative to max
 SAME_ATOL = 1e-12
 # a reference run whose loss grows beyond this factor (or is not finite) is a diverging optimisation:
@@ -184,7 +191,7 @@ def _adam_slack(want, view, key):
     if not view.get(key + "_adam"):
         return 0.0
     lrs = np.asarray(want["iter_lrs"].get(key, []), dtype=np.float64)
-    return ADAM_REL * float(np.sum(lrs[view["k0"] :]))
+    return (ADAM_REL_FRESH if view.get("fresh_adam") else ADAM_REL) * float(np.sum(lrs[view["k0"] :]))
 
 
 def _cmp_obj(case, who, got, want_report, view):
@@ -416,6 +423,7 @@ def _check_resume(ctx, case):
             "gauge": case["obj_type"] != "potential" and bool(case["autograd"]),
             "W": _illumination(A),
             "k0": k,
+            "fresh_adam": k == 0 or any(sp.get("opt") for sp in later),
             "object_adam": str(case["opt"]["object"]["type"]).lower() != "sgd",
             "probe_adam": "probe" in case["opt"] and str(case["opt"]["probe"]["type"]).lower() != "sgd",
         }
@@ -762,7 +770,10 @@ def _problem(draw):
     # cancellation, 1e-3 relative noise between two summation orders, amplified by Adam: continuation after
     # a reload then agrees only to ~1e-3, a property of that model, not of checkpointing)
     probe_init = draw(st.sampled_from(["array", "array", "params"]))
-    M = 1 if probe_init == "parametric" else draw(st.sampled_from([1, 2, 1]))
+    # two modes only from the harness' own, well separated mode stack: from_params starts mode 2 as a
+    # sub-pixel shifted copy of mode 1, and Gram-Schmidt on two nearly parallel modes amplifies float32
+    # rounding ~100x (continuations then agree only to ~1e-5 in the losses whatever the checkpointing)
+    M = 1 if probe_init != "array" else draw(st.sampled_from([1, 2, 1]))
     S = draw(st.sampled_from([1, 2, 1]))
     keys = ["object"] + (["probe"] if (probe_init == "parametric" or not _rare(draw, 5)) else []) + (["dataset"] if with_ds else [])
     c = {
